@@ -57,16 +57,19 @@ def check(rep, tier, rng):
         distinct.add((cls, g.split(" ")[0], c.get("tag", c["kind"]), impl[:60] if cls == "panic" else ""))
         if not t3.same_outcome(impl, model):
             tie_breaks.append((c, impl, model))
-        for what, line in (("Ast::new", impl), ("Generator::generate", g)):
+        for what, line, mline in (("Ast::new", impl, model), ("Generator::generate", g, gm)):
             if line.startswith("panic") or line.startswith("abort"):
                 p = t3.panic_canon(line) or ("?", line)
                 k = known_panic(known, p[0], p[1])
-                if k:
+                # a recorded finding is a panic at a recorded site *reached the recorded way*: the model (for which
+                # C14_only_known_panic_sites / C14_generate_only_known_panic characterise every panic) predicts the same panic from the
+                # same entry point.  The same site reached from elsewhere is a different violation.
+                if k and t3.same_outcome(line, mline):
                     rep.known_finding(k["id"], k["what"])
                 else:
                     nviol += 1
                     if nviol <= 5:
-                        rep.violation({"kind": "generator-panicked", "api": what, "text": c["text"], "observed": line,
+                        rep.violation({"kind": "generator-panicked", "api": what, "text": c["text"], "observed": line, "model": mline[:200],
                                        "how": "echo \"ast <hex of text>\" | harness/front/target/debug/fxfront"})
         # the model parses with the grammar regenerated from src/xdr.pest (T0): a text that grammar rejects must be Err
         if model == "err" and impl.startswith("ok"):
@@ -80,7 +83,7 @@ def check(rep, tier, rng):
             rep.violation({"kind": "rejected-text-not-err", "text": c["text"], "ast": impl, "generate": g})
     rep.cov.update({"evaluations": 2 * len(cases), "distinct_nontrivial": len(distinct), "input_kinds": kinds, "outcomes": outcomes,
                     "traces_validated_against_impl": len(cases) - len(tie_breaks),
-                    "rule": "supported-subset specifications (2 layouts each), grammar-valid out-of-subset constructs (16 kinds), 1-2 token-level mutations "
+                    "rule": "supported-subset specifications (2 layouts each), grammar-valid out-of-subset constructs (17 kinds), 1-2 token-level mutations "
                             "of both and of the repository's golden inputs, typedef chains and cycles in every position (a request without an answer within 20 s is a violation); each text through Ast::new (compared with the model's outcome and panic site) and "
                             "Generator::generate; distinct = distinct (outcome class, generate class, construct kind, panic site)",
                     "samples": [{"text": c["text"][:300], "ast": i[:120], "generate": g[:60]} for c, (i, m), g in list(zip(cases, res, gen))[:: max(1, len(cases) // 6)]][:6]})
